@@ -47,24 +47,26 @@ def _decide(res, case_id, s, obligations, log, replay=None, prefer=()):
     for name, viol in obligations:
         tt = time.time()
         s.push(); s.add(viol); r = str(s.check())
-        model = s.model() if r == "sat" else None
+        models = [s.model()] if r == "sat" else []
         if r == "sat" and prefer:
-            # prefer a witness without rejected attempts: step sizes after a rejection go through the controller's power
-            # function, which the encoding abstracts, so such witnesses often do not replay
+            # additional witnesses without rejected attempts: step sizes after a rejection go through the controller's power
+            # function, which the encoding abstracts, so such witnesses often do not replay; every witness is tried
             for pref in (prefer if isinstance(prefer[0], (list, tuple)) else [prefer]):
                 s.push(); s.add(*pref)
-                ok_ = str(s.check()) == "sat"
-                if ok_:
-                    model = s.model()
+                if str(s.check()) == "sat":
+                    models.append(s.model())
                 s.pop()
-                if ok_:
-                    break
         s.pop()
-        ob = {"id": f"C05/{case_id}/{name}", "queries": 1, "solver_s": round(time.time() - tt, 3), "nontrivial": True}
+        ob = {"id": f"C05/{case_id}/{name}", "queries": 1 + max(0, len(models) - 1), "solver_s": round(time.time() - tt, 3),
+              "nontrivial": True}
         if r == "unsat":
             ob["status"] = "holds"
         elif r == "sat" and replay is not None:
-            ok, info = replay(model, name)
+            ok, info = None, {}
+            for mdl in models:
+                ok, info = replay(mdl, name)
+                if ok is False:
+                    break
             ob["counterexample"] = info
             ob["status"] = "violated" if ok is False else "inconclusive"
             if ok is False and info.get("path"):
